@@ -48,6 +48,14 @@ TARGETS = {
                 # on anything the translated function reads
                 externs={'inq_dim': dict(out=3)}),
     'contig': dict(src='drivers/ncmpio/ncmpio_filetype.c', funcs=['is_request_contiguous']),
+    'begins': dict(src='drivers/ncmpio/ncmpio_enddef.c', funcs=['NC_begins'],
+                   # the header length is computed by ncmpio_hdr_len_NC (modelled by Header.hdr_len, proved equal
+                   # to the encoder's length elsewhere): an unknown function, extra parameter x<k>_..._ret
+                   externs={'ncmpio_hdr_len_NC': dict(out=None)},
+                   # LISTED EXCLUSION: the redundant cross-process consistency test of safe mode (MPI_Bcast /
+                   # MPI_Allreduce) is not translated; if its condition holds the generated function yields
+                   # CUnsup, so every theorem about it carries the guard that the condition is false
+                   exclude_if=['ncp->safe_mode && ncp->nprocs > 1']),
 }
 
 INT_TYPES = {
@@ -347,7 +355,10 @@ class Fn:
         self.ext_sites = {}       # CallExpr id -> (k, name)
         self.member_count = {}    # (owner type, field) -> number of occurrences
         self.ptr_sources = {}     # local decl id -> list of initialising expressions
+        self.mutating = False     # the function writes struct fields: struct-pointer parameters live in the state,
+                                  # struct-pointer locals are references (array index), `return` keeps the state
         externs = self.tr.spec.get('externs', {})
+        excl = self.tr.spec.get('exclude_if', [])
 
         def walk(n):
             if not isinstance(n, dict):
@@ -360,10 +371,21 @@ class Fn:
             if k == 'MemberExpr':
                 key = (self.T.of(n['inner'][0]), n.get('name'))
                 self.member_count[key] = self.member_count.get(key, 0) + 1
+            if k == 'IfStmt' and ctext(n['inner'][0]) in excl:
+                walk(n['inner'][0])
+                for c in n['inner'][2:]:
+                    walk(c)
+                return                     # the excluded branch is not looked at
             if k == 'CallExpr':
                 cal = strip_casts(n['inner'][0])
                 if cal.get('kind') == 'MemberExpr' and cal.get('name') in externs:
                     self.ext_sites[n['id']] = (len(self.ext_sites) + 1, cal['name'])
+                if cal.get('kind') == 'DeclRefExpr' and cal.get('referencedDecl', {}).get('name') in externs:
+                    self.ext_sites[n['id']] = (len(self.ext_sites) + 1, cal['referencedDecl']['name'])
+            if (k in ('BinaryOperator', 'CompoundAssignOperator') and (n.get('opcode') == '=' or k == 'CompoundAssignOperator')) \
+                    or (k == 'UnaryOperator' and n.get('opcode') in ('++', '--')):
+                if strip(n['inner'][0]).get('kind') in ('MemberExpr', 'ArraySubscriptExpr'):
+                    self.mutating = True
             if k == 'VarDecl' and self.T.is_ptr(self.T.of(n)):
                 ini = [c for c in n.get('inner', []) if c.get('kind') and 'Attr' not in c.get('kind', '')]
                 if ini:
@@ -391,12 +413,13 @@ class Fn:
                         kind, coqty, elem, sn = 'ptr', 'c_ptr c_' + sn, ('struct', sn), None
                     if c['id'] in self.assigned_ids:
                         raise Unsupported('parameter %s is assigned / has its address taken' % nm)
-                    self.params.append(dict(id=c['id'], name=nm, g='p_' + nm, kind=kind, coqty=coqty, cty=cty, elem=elem, sname=sn))
+                    self.params.append(dict(id=c['id'], name=nm, g='p_' + nm, kind=kind, coqty=coqty, cty=cty, elem=elem, sname=sn,
+                                            instate=(self.mutating and kind == 'sref'), field=self.fld('P_' + nm)))
                 except Unsupported as e:
                     self.params.append(dict(id=c['id'], name=nm, g='p_' + nm, kind='bad', coqty='unit', cty=cty, elem=None, sname=None,
                                             why=str(e)))
         for cid, (kx, nm) in sorted(self.ext_sites.items(), key=lambda kv: kv[1][0]):
-            for suf in ('ret', 'out'):
+            for suf in (('ret', 'out') if externs[nm].get('out') is not None else ('ret',)):
                 g = 'x%d_%s_%s' % (kx, nm, suf)
                 self.params.append(dict(id='ext:%s:%s' % (cid, suf), name=g, g=g, kind='int', coqty='Z', cty='long long',
                                         elem=None, sname=None, ext=True))
@@ -414,7 +437,12 @@ class Fn:
                     kind, coqty, dflt, elem, sn = self.classify(cty)
                     if n.get('storageClass') in ('static', 'extern'):
                         raise Unsupported('static/extern local %s' % nm)
-                    self.locals[n['id']] = dict(name=nm, field=self.fld(f), kind=kind, coqty=coqty, dflt=dflt, cty=cty, elem=elem, sname=sn)
+                    root = None
+                    if kind == 'sref' and self.mutating:
+                        root = self.ref_root(n['id'], nm)
+                        kind, coqty, dflt = 'ref', 'c_ref', 'None'
+                    self.locals[n['id']] = dict(name=nm, field=self.fld(f), kind=kind, coqty=coqty, dflt=dflt, cty=cty, elem=elem, sname=sn,
+                                                root=root)
                 except Unsupported as e:
                     self.locals[n['id']] = dict(name=nm, field=self.fld(f), kind='bad', coqty='unit', dflt='tt', cty=cty, elem=None, sname=None,
                                                 why=str(e))
@@ -422,6 +450,33 @@ class Fn:
             for c in n.get('inner', []):
                 decls(c)
         decls(d)
+
+    def ref_root(self, did, nm):
+        """the array a reference local points into: every value assigned to it is NULL or <array>[index] with the
+        same <array>, an expression built from parameters and members only"""
+        root = None
+        for src in self.ptr_sources.get(did, []):
+            t = strip_casts(src)
+            if t.get('kind') == 'IntegerLiteral' and t.get('value') == '0':
+                continue
+            t = strip(src)
+            if t.get('kind') != 'ArraySubscriptExpr':
+                raise Unsupported('pointer %s is assigned %s' % (nm, ctext(src)))
+            base = strip(t['inner'][0])
+
+            def stable(b):
+                b = strip(b)
+                if b.get('kind') == 'MemberExpr':
+                    return stable(b['inner'][0])
+                return b.get('kind') == 'DeclRefExpr' and b['referencedDecl'].get('kind') == 'ParmVarDecl'
+            if not stable(base):
+                raise Unsupported('pointer %s is assigned %s' % (nm, ctext(src)))
+            if root is not None and ctext(root) != ctext(base):
+                raise Unsupported('pointer %s points into two arrays' % nm)
+            root = base
+        if root is None:
+            raise Unsupported('pointer %s is never assigned an element' % nm)
+        return root
 
     # ---- expressions
     def var_ref(self, n):
@@ -436,6 +491,8 @@ class Fn:
                 if p['kind'] == 'bad':
                     raise Unsupported('parameter %s: %s' % (p['name'], p['why']))
                 k = 'struct' if p['kind'] == 'sref' else p['kind']
+                if p.get('instate'):
+                    return E(k, '(%s s)' % p['field'], None, p['cty'], p['elem'], p['sname'])
                 return E(k, p['g'], None, p['cty'], p['elem'], p['sname'])
         if rd['id'] in self.locals:
             l = self.locals[rd['id']]
@@ -444,7 +501,9 @@ class Fn:
             if rd['id'] not in self.assigned:
                 raise Unsupported('local %s may be read before it is assigned' % l['name'])
             k = 'struct' if l['kind'] == 'sref' else l['kind']
-            return E(k, '(%s s)' % l['field'], None, l['cty'], l['elem'], l['sname'])
+            e = E(k, '(%s s)' % l['field'], None, l['cty'], l['elem'], l['sname'])
+            e.root = l.get('root')
+            return e
         raise Unsupported('reference to %s %s' % (rd.get('kind'), rd.get('name')))
 
     def as_int(self, e):
@@ -461,6 +520,10 @@ class Fn:
             return E('bool', '(z2b %s)' % e.term, e.chk, 'int')
         if e.kind == 'ptr':
             return E('bool', '(negb (p_isnull %s))' % e.term, e.chk, 'int')
+        if e.kind == 'ref':
+            return E('bool', '(negb (r_isnull %s))' % e.term, e.chk, 'int')
+        if e.kind == 'ostruct':
+            return E('bool', '(o_ok %s)' % e.term, e.chk, 'int')
         raise Unsupported('%s value used as a condition' % e.kind)
 
     def convert(self, e, to_cty, what='conversion'):
@@ -556,11 +619,31 @@ class Fn:
             raise Unsupported('cast kind %s in %s' % (ck, ctext(n)))
         if k == 'MemberExpr':
             b = self.expr(inner[0])
+            if b.kind == 'ref':
+                # p->f through a reference: the element is read from the current state
+                arr = self.expr(b.root)
+                if arr.kind != 'ptr' or not arr.elem or arr.elem[0] != 'struct':
+                    raise Unsupported('reference into %s' % ctext(b.root))
+                sn0 = arr.elem[1]
+                b = E('struct', '(r_get c_%s_default %s %s)' % (sn0, b.term, arr.term),
+                      conj(b.chk, arr.chk, '(r_ok %s %s)' % (b.term, arr.term)), 'struct ' + sn0, None, sn0)
+            if b.kind == 'ostruct':
+                b = E('struct', '(o_get c_%s_default %s)' % (b.sname, b.term), conj(b.chk, '(o_ok %s)' % b.term),
+                      b.cty, None, b.sname)
             if b.kind != 'struct':
                 raise Unsupported('member of a non-struct value: %s' % ctext(n))
             fname = n['name']
             cty = T.of(n)
             kind, coqty, dflt, elem, sn = self.classify(cty)
+            own = T.of(inner[0])
+            own = T.struct_name(T.pointee(own) if T.is_ptr(own) else own)
+            if kind == 'sref' and (own, fname) in self.tr.nullable_fields:
+                # a pointer to one struct that is compared with NULL somewhere: option; a pointer to the owner's own
+                # struct type gets a record type of its own (the fields read through it)
+                sn2 = '%s__%s' % (b.sname, fname) if sn == own else sn
+                self.tr.need_struct(sn2)
+                self.tr.use_field(b.sname, fname, 'option c_' + sn2, 'None')
+                return E('ostruct', '(%s__%s %s)' % (b.sname, fname, b.term), b.chk, cty, None, sn2)
             # a struct-pointer member that is indexed somewhere is an array of structs: decided globally by the translator
             if kind == 'sref' and self.tr.field_is_array(b.sname, fname):
                 kind, coqty, dflt, elem, sn = 'ptr', 'c_ptr c_' + sn, 'None', ('struct', sn), None
@@ -618,6 +701,12 @@ class Fn:
                 return E('bool', '(%s || %s)' % (a.term, b.term), conj(a.chk, cond_chk(a.term, None, b.chk)), 'int')
             if op in ('<', '<=', '>', '>=', '==', '!='):
                 a, b = self.expr(inner[0]), self.expr(inner[1])
+                if op in ('==', '!=') and (a.kind in ('ref', 'ostruct') or b.kind in ('ref', 'ostruct')):
+                    x, y = (a, b) if a.kind in ('ref', 'ostruct') else (b, a)
+                    if not (y.kind == 'ptr' and y.elem and y.elem[0] == 'null'):
+                        raise Unsupported('pointer comparison %s' % ctext(n))
+                    t = '(r_isnull %s)' % x.term if x.kind == 'ref' else '(negb (o_ok %s))' % x.term
+                    return E('bool', t if op == '==' else '(negb %s)' % t, x.chk, 'int')
                 if a.kind == 'ptr' or b.kind == 'ptr':
                     if op in ('==', '!=') and a.kind == 'ptr' and b.kind == 'ptr' and \
                             ((b.elem and b.elem[0] == 'null') or (a.elem and a.elem[0] == 'null')):
@@ -659,6 +748,15 @@ class Fn:
             if callee.get('kind') != 'DeclRefExpr' or callee['referencedDecl'].get('kind') != 'FunctionDecl':
                 raise Unsupported('indirect call %s' % ctext(n))
             fname = callee['referencedDecl']['name']
+            if n.get('id') in self.ext_sites and self.tr.spec['externs'][fname].get('out') is None:
+                # unknown function without output argument: its value is an extra parameter; arguments that are
+                # integers are evaluated (definedness), pointers / structs are opaque
+                kx, _ = self.ext_sites[n['id']]
+                chks = []
+                for a in inner[1:]:
+                    if not T.is_ptr(T.of(a)):
+                        chks.append(self.as_int(self.expr(a)).chk)
+                return E('int', 'x%d_%s_ret' % (kx, fname), conj(*chks), T.of(n))
             target = self.tr.done.get(fname)
             if target is None:
                 raise Unsupported('call of %s, which is not translated in this file' % fname)
@@ -743,6 +841,60 @@ class Fn:
         self.assigned_after = t['referencedDecl']['id']
         return e.chk, '(CNorm (set_%s %s s))' % (l['field'], e.term), what
 
+    def assign_ref(self, tl, rhs, what):
+        """p = NULL  or  p = <root array>[index]  for a reference local p"""
+        l = self.locals[tl['referencedDecl']['id']]
+        self.assigned_after = tl['referencedDecl']['id']
+        t = strip_casts(rhs)
+        if t.get('kind') == 'IntegerLiteral' and t.get('value') == '0':
+            return None, '(CNorm (set_%s None s))' % l['field'], what
+        t = strip(rhs)
+        if t.get('kind') != 'ArraySubscriptExpr' or ctext(strip(t['inner'][0])) != ctext(l['root']):
+            raise Unsupported('pointer assignment %s' % what)
+        arr = self.expr(t['inner'][0])
+        i = self.as_int(self.expr(t['inner'][1]))
+        if arr.kind != 'ptr' or not arr.elem or arr.elem[0] != 'struct':
+            raise Unsupported('pointer assignment %s' % what)
+        return conj(arr.chk, i.chk, '(p_ok %s %s)' % (arr.term, i.term)), \
+            '(CNorm (set_%s (Some %s) s))' % (l['field'], i.term), what
+
+    def lv_update(self, n, new, chks):
+        """state after storing the term `new` into the object designated by the lvalue n: a member / element chain that
+        ends in a struct-pointer parameter (which lives in the state of a mutating function)"""
+        n = strip(n)
+        k = n.get('kind')
+        if k == 'DeclRefExpr':
+            for p in self.params:
+                if p['id'] == n['referencedDecl']['id'] and p.get('instate'):
+                    return '(set_%s %s s)' % (p['field'], new)
+            raise Unsupported('store through %s' % ctext(n))
+        if k == 'MemberExpr':
+            b = self.expr(n['inner'][0])
+            if b.kind != 'struct':
+                raise Unsupported('store through %s' % ctext(n))
+            chks.append(b.chk)
+            return self.lv_update(n['inner'][0], '(set_%s__%s %s %s)' % (b.sname, n['name'], new, b.term), chks)
+        if k == 'ArraySubscriptExpr':
+            a = self.expr(n['inner'][0])
+            i = self.as_int(self.expr(n['inner'][1]))
+            if a.kind != 'ptr' or not a.elem or a.elem[0] not in ('struct', 'int'):
+                raise Unsupported('store through %s' % ctext(n))
+            chks += [a.chk, i.chk, '(p_ok %s %s)' % (a.term, i.term)]
+            return self.lv_update(n['inner'][0], '(p_set %s %s %s)' % (a.term, i.term, new), chks)
+        raise Unsupported('store through %s' % ctext(n))
+
+    def assign_lvalue(self, lhs, e, what):
+        if not self.mutating:
+            raise Unsupported('assignment to %s' % ctext(lhs))
+        if self.T.int_info(self.T.of(lhs)) is None:
+            raise Unsupported('assignment of a non-integer to %s' % ctext(lhs))
+        e = self.as_int(e)
+        # make sure the member exists in the record even if it is never read
+        probe = self.expr(strip(lhs))
+        chks = [e.chk]
+        term = self.lv_update(lhs, e.term, chks)
+        return conj(*chks), '(CNorm %s)' % term, what
+
     def check_no_alias(self, did):
         """a local pointer that is written through must be the only access path to its array: every value assigned
         to it is NULL or a struct member that occurs exactly once in the function"""
@@ -768,7 +920,8 @@ class Fn:
         newly = []
 
         def build():
-            if k == 'BinaryOperator' and n['opcode'] == '=' and strip_casts(n['inner'][1]).get('id') in self.ext_sites:
+            if k == 'BinaryOperator' and n['opcode'] == '=' and strip_casts(n['inner'][1]).get('id') in self.ext_sites and \
+                    self.tr.spec['externs'][self.ext_sites[strip_casts(n['inner'][1])['id']][1]].get('out') is not None:
                 lhs, rhs = n['inner']
                 call = strip_casts(rhs)
                 kx, nm = self.ext_sites[call['id']]
@@ -808,7 +961,15 @@ class Fn:
                 return conj(*chks), '(c_bind (CNorm %s) (fun s => %s))' % (store, t2), ctext(n)
             if k == 'BinaryOperator' and n['opcode'] == '=':
                 lhs, rhs = n['inner']
+                tl = strip(lhs)
+                if tl.get('kind') == 'DeclRefExpr' and tl['referencedDecl']['id'] in self.locals and \
+                        self.locals[tl['referencedDecl']['id']]['kind'] == 'ref':
+                    r = self.assign_ref(tl, rhs, ctext(n))
+                    newly.append(self.assigned_after)
+                    return r
                 e = self.expr(rhs)
+                if tl.get('kind') != 'DeclRefExpr':
+                    return self.assign_lvalue(lhs, e, ctext(n))
                 r = self.assign_local(lhs, e, ctext(n))
                 newly.append(self.assigned_after)
                 return r
@@ -821,6 +982,8 @@ class Fn:
                 b = self.expr(rhs)
                 v = self.arith(op, a, b, comp)
                 v = self.convert(v, self.T.of(lhs))
+                if strip(lhs).get('kind') != 'DeclRefExpr':
+                    return self.assign_lvalue(lhs, v, ctext(n))
                 r = self.assign_local(lhs, v, ctext(n))
                 return r
             if k == 'UnaryOperator' and n['opcode'] in ('++', '--'):
@@ -831,6 +994,8 @@ class Fn:
                 if ti is None or ti[1] < 32:
                     raise Unsupported('%s on type %s' % (n['opcode'], cty))
                 v = self.arith('+' if n['opcode'] == '++' else '-', cur, lit(1, cty), cty)
+                if strip(tgt).get('kind') != 'DeclRefExpr':
+                    return self.assign_lvalue(tgt, v, ctext(n))
                 return self.assign_local(tgt, v, ctext(n))
             if k == 'CallExpr':
                 e = self.expr(n)
@@ -873,6 +1038,8 @@ class Fn:
                     did = d['id']
 
                     def build(fake=fake, init=init, d=d):
+                        if self.locals[d['id']]['kind'] == 'ref':
+                            return self.assign_ref(fake, init[0], '%s = %s' % (d['name'], ctext(init[0])))
                         e = self.expr(init[0])
                         return self.assign_local(fake, e, '%s = %s' % (d['name'], ctext(init[0])))
                     terms.append(self.with_calls(build))
@@ -887,6 +1054,8 @@ class Fn:
 
             def build():
                 e = self.as_int(self.expr(inner[0]))
+                if self.mutating:
+                    return e.chk, '(CRetS %s s)' % e.term, 'return ' + ctext(inner[0])
                 return e.chk, '(CRet %s)' % e.term, 'return ' + ctext(inner[0])
             r = self.with_calls(build)
             self.assigned = None
@@ -903,6 +1072,7 @@ class Fn:
                 raise Unsupported('if with declaration')
             cond, thn = inner[0], inner[1]
             els = inner[2] if len(inner) > 2 else None
+            excluded = ctext(cond) in self.tr.spec.get('exclude_if', [])
             before = self.assigned
             # translate the condition first (it may hoist calls), then the arms
             old = self.hoist
@@ -913,7 +1083,13 @@ class Fn:
             finally:
                 self.hoist = old
             self.assigned = before
-            a = self.stmt(thn)
+            if excluded:
+                msg = '%s: EXCLUDED by the target description: the branch of if (%s)' % (self.name, ctext(cond))
+                self.tr.excluded.append(msg)
+                a = '(CUnsup %s)' % cq(msg)
+                self.assigned = None
+            else:
+                a = self.stmt(thn)
             after_a = self.assigned
             self.assigned = before
             b = self.stmt(els) if els is not None else '(CNorm s)'
@@ -934,7 +1110,19 @@ class Fn:
                 raise Unsupported('for with a condition variable')
             if not cond:
                 raise Unsupported('for without a condition')
-            ti = self.stmt1(init) if init else '(CNorm s)'   # an unsupported init makes the whole loop unsupported
+            if init and strip(init).get('kind') == 'BinaryOperator' and strip(init).get('opcode') == ',':
+                parts = []
+
+                def flat(x):
+                    x = strip(x)
+                    if x.get('kind') == 'BinaryOperator' and x.get('opcode') == ',':
+                        flat(x['inner'][0]); flat(x['inner'][1])
+                    else:
+                        parts.append(x)
+                flat(init)
+                ti = self.chain([self.stmt1(x) for x in parts])
+            else:
+                ti = self.stmt1(init) if init else '(CNorm s)'   # an unsupported init makes the whole loop unsupported
             if self.assigned is None:
                 raise Unsupported('for init does not complete')
             entry = self.assigned
@@ -1028,17 +1216,25 @@ class Fn:
     def emit(self):
         L = []
         st = self.st()
-        ls = sorted((self.locals[i] for i in self.local_order), key=lambda l: l['field'])
+        ls = [self.locals[i] for i in self.local_order]
+        # struct-pointer parameters of a function that writes struct fields: the pointed-to object is part of the state
+        ps = [dict(field=p['field'], coqty=p['coqty'], dflt=p['g']) for p in self.params if p.get('instate')]
+        ls = sorted(ls + ps, key=lambda l: l['field'])
+        pd = self.param_binders()
         L.append('(* ---------------- %s ---------------- *)' % self.name)
         L.append('Record %s : Type := mk_%s { %s }.' % (st, st, '; '.join('%s : %s' % (l['field'], l['coqty']) for l in ls)))
-        L.append('Definition %s_init : %s := mk_%s %s.' % (st, st, st, ' '.join('%s' % (l['dflt'] if ' ' not in l['dflt'] else '(%s)' % l['dflt']) for l in ls)))
+        L.append('Definition %s_init %s: %s := mk_%s %s.' % (st, (pd + ' ') if ps else '', st, st, ' '.join('%s' % (l['dflt'] if ' ' not in l['dflt'] else '(%s)' % l['dflt']) for l in ls)))
         for l in ls:
             L.append('Definition set_%s (v : %s) (s : %s) : %s := mk_%s %s.' %
                      (l['field'], l['coqty'], st, st, st, ' '.join('v' if m is l else '(%s s)' % m['field'] for m in ls)))
         L.extend(self.loops)
-        pd = self.param_binders()
         L.append('Definition %s_body %s (s : %s) : cres %s :=\n  %s.' % (self.name, pd, st, st, self.body))
-        L.append('Definition %s %s : fres :=\n  c_fun (%s_body %s %s_init).' % (self.gname(), pd, self.name, self.param_args(), st))
+        init = '(%s_init %s)' % (st, self.param_args()) if ps else '%s_init' % st
+        if self.mutating:
+            L.append('(* the function writes through its pointer arguments: value and final state *)')
+            L.append('Definition %s %s : fres_st %s :=\n  c_fun_st (%s_body %s %s).' % (self.gname(), pd, st, self.name, self.param_args(), init))
+        else:
+            L.append('Definition %s %s : fres :=\n  c_fun (%s_body %s %s).' % (self.gname(), pd, self.name, self.param_args(), init))
         return '\n'.join(L)
 
 
@@ -1057,6 +1253,8 @@ class Translator:
         self.array_fields = set()
         self.done = {}
         self.unsupported = []
+        self.excluded = []
+        self.nullable_fields = set()   # (struct, field): pointer-to-struct members that are compared with NULL
 
     def need_struct(self, sn):
         if sn not in self.structs:
@@ -1087,6 +1285,17 @@ class Translator:
                     sn = self.T.struct_name(owner)
                     if sn:
                         self.array_fields.add((sn, b['name']))
+            if n.get('kind') == 'BinaryOperator' and n.get('opcode') in ('==', '!='):
+                for x, y in ((n['inner'][0], n['inner'][1]), (n['inner'][1], n['inner'][0])):
+                    xs, ys = strip(x), strip_casts(y)
+                    if xs.get('kind') == 'MemberExpr' and ys.get('kind') == 'IntegerLiteral' and ys.get('value') == '0':
+                        owner = self.T.of(xs['inner'][0])
+                        if self.T.is_ptr(owner):
+                            owner = self.T.pointee(owner)
+                        sn = self.T.struct_name(owner)
+                        ft = self.T.of(xs)
+                        if sn and self.T.is_ptr(ft) and self.T.struct_name(self.T.pointee(ft)):
+                            self.nullable_fields.add((sn, xs['name']))
             for c in n.get('inner', []):
                 walk(c)
         for d in decls:
@@ -1156,6 +1365,10 @@ class Translator:
             L.append('(* the fields of %s that the translated functions read *)' % sn)
             L.append('Record c_%s : Type := mk_c_%s { %s }.' % (sn, sn, '; '.join('%s__%s : %s' % (sn, f, ty) for f, (ty, _) in fs)))
             L.append('Definition c_%s_default : c_%s := mk_c_%s %s.' % (sn, sn, sn, ' '.join(d if ' ' not in d else '(%s)' % d for f, (ty, d) in fs)))
+            if any(fn is not None and fn.mutating for _, fn in fns):
+                for f, (ty, _) in fs:
+                    L.append('Definition set_%s__%s (v : %s) (r : c_%s) : c_%s := mk_c_%s %s.' %
+                             (sn, f, ty, sn, sn, sn, ' '.join('v' if g == f else '(%s__%s r)' % (sn, g) for g, _ in fs)))
         for sn in self.struct_order:
             emit_struct(sn)
         L.append('')
@@ -1168,6 +1381,8 @@ class Translator:
             L.append('')
         L.append('(* constructs outside the subset met by the translator (must be empty for the equivalence proofs) *)')
         L.append('Definition tr_cfun_unsupported : list string := [%s].' % '; '.join(cq(m) for m in self.unsupported))
+        L.append('(* branches left out on purpose (target description): reaching one yields CUnsup *)')
+        L.append('Definition tr_cfun_excluded : list string := [%s].' % '; '.join(cq(m) for m in self.excluded))
         return '\n'.join(L) + '\n'
 
 
